@@ -12,7 +12,7 @@ from __future__ import annotations
 import hashlib
 import json
 
-from common import (NCPU, cached, SPEC, MachineryError, Outcome, drive, run_parallel, seed,
+from common import (NCPU, NSHARDS, shard_hashseed, cached, SPEC, MachineryError, Outcome, drive, run_parallel, seed,
                     spec_hash, tagged_lines, tlc, tlc_ok, tlc_violation, workdir)
 
 PID = "C14"
@@ -48,9 +48,9 @@ def _mc(wd):
 
 def warm() -> None:
     wd = workdir(PID + "-warm")
-    cached("graphops-mc-m3", lambda: _mc(wd))
-    cached("graphops-gen-m3", lambda: _gen("GraphOps_Gen_M3.cfg", wd, workers=1))
-    cached("graphops-gen-m4c", lambda: _gen("GraphOps_Gen_M4c.cfg", wd, workers=1))
+    cached("graphops-mc-m3", lambda: _mc(wd), module="GraphOps")
+    cached("graphops-gen-m3", lambda: _gen("GraphOps_Gen_M3.cfg", wd, workers=1), module="GraphOps")
+    cached("graphops-gen-m4c", lambda: _gen("GraphOps_Gen_M4c.cfg", wd, workers=1), module="GraphOps")
 
 
 def run(tier: str) -> int:
@@ -60,31 +60,31 @@ def run(tier: str) -> int:
     thorough = tier == "thorough"
 
     # (1) design-level model checking (depends only on the spec -> cached by spec hash)
-    mcres, mc_cached = cached("graphops-mc-m3", lambda: _mc(wd))
+    mcres, mc_cached = cached("graphops-mc-m3", lambda: _mc(wd), module="GraphOps")
 
     # (2) behaviours
-    gen_m3, _ = cached("graphops-gen-m3", lambda: _gen("GraphOps_Gen_M3.cfg", wd, workers=1))
+    gen_m3, _ = cached("graphops-gen-m3", lambda: _gen("GraphOps_Gen_M3.cfg", wd, workers=1), module="GraphOps")
     nsim = 40 if not thorough else 400
     sim3 = _gen("GraphOps_Sim_M3.cfg", wd, workers=4, simulate=f"num={nsim}", depth=5, tlc_seed=1000 + s)
     sim5 = _gen("GraphOps_Sim_RND.cfg", wd, workers=8, simulate=f"num={max(4, nsim // 8)}", depth=6,
                 tlc_seed=2000 + s)
     cap = 3000 if not thorough else 60000
     # cyclic 4-node graphs, directed-path operation only (the cyclic branch of get_nodes_in_directed_paths)
-    gen_m4c, _ = cached("graphops-gen-m4c", lambda: _gen("GraphOps_Gen_M4c.cfg", wd, workers=1))
+    gen_m4c, _ = cached("graphops-gen-m4c", lambda: _gen("GraphOps_Gen_M4c.cfg", wd, workers=1), module="GraphOps")
     behs = gen_m3["behs"] + _sample(sim3["behs"], cap, s) + _sample(sim5["behs"], cap, s) + \
         _sample(gen_m4c["behs"], 20000 if not thorough else 10 ** 7, s)
 
     # (3) replay through the real code, sharded
     n_orders = 3
-    shards = [behs[i::NCPU] for i in range(NCPU)]
+    shards = [behs[i::NSHARDS] for i in range(NSHARDS)]
     jobs = []
     for i, sh in enumerate(shards):
         f = wd / f"beh{i}.json"
         f.write_text(json.dumps(sh))
-        jobs.append((f, wd / f"res{i}.json"))
+        jobs.append((f, wd / f"res{i}.json", i))
 
     def one(job):
-        drive("drive_graph.py", [str(job[0]), str(job[1]), str(n_orders)])
+        drive("drive_graph.py", [str(job[0]), str(job[1]), str(n_orders)], hashseed=shard_hashseed(job[2]))
         return json.loads(job[1].read_text())
 
     results = run_parallel(one, jobs)
